@@ -122,6 +122,10 @@ def parseGOp (j : J) : Except String (C07.GOp Int) := do
   | [J.str "exit"] => pure .exit
   | [J.str "xexit"] => pure .xexit
   | [J.str "updall"] => pure .updateAll
+  | [J.str "mkcalc"] => pure .makeCalc
+  | [J.str "fromcalc", vs] => do
+    let l ← vs.toListOf J.toInt
+    pure (.fromCalc (fun k => l.getD k 0))
   | _ => throw "bad gen ctl op"
 
 def genCtlRun (g : Ctl.Graph Int) : Ctl.St Int → List (C07.GOp Int) → List J
